@@ -165,6 +165,11 @@ func getRandUint32IPv4(ipNet *net.IPNet) (uint32, error) {
 // helper function to get random integers within a range
 func randomInt(x, y uint32) (uint32, error) {
 	rangeSize := y - x
+	if rangeSize == 0 {
+		// rand.Int panics on an empty range: an empty range here is a subnet with 32 or more host
+		// bits (its size does not fit a uint32), which can not be drawn from
+		return 0, errors.New("empty range")
+	}
 	// Generate a random number in the range [0, rangeSize)
 	randomNum, err := rand.Int(rand.Reader, big.NewInt(int64(rangeSize)))
 	if err != nil {
